@@ -191,10 +191,37 @@ def _dirty(res):
     return res[0] != "ok" or (isinstance(res[1], dict) and res[1].get("ok") is False)
 
 
+def compiler_state():
+    """the module-level scratch state of the compiler that a rejected design could leave behind (the fields
+    audited for C11); compared before/after a rejected design to decide whether the interpreter is still clean"""
+    try:
+        from cohdl._core._ir import _repr as ir
+        from cohdl._core import _context as ctxm
+        from cohdl.std._prefix import _Prefix
+        from cohdl.std import _context as sctx
+        from cohdl.std._exception import StdExceptionHandler
+        from cohdl._compiler.frontend import _prepare_ast as pa
+        from cohdl._compiler.frontend._generate_ir import IrGenerator as IG
+
+        return (
+            ir.StatemachineContext._singleton is None,
+            id(ctxm._block_stack), len(ctxm._block_stack), len(pa._block_stack),
+            pa._active_converter_instance is None, ctxm._entity_instantiation_handler is None,
+            sctx._current_context is None, getattr(sctx, "_current_context_data", None) is None,
+            len(_Prefix._prefix_scope), len(StdExceptionHandler._handler_list),
+            pa._parent_frame is None, len(pa._return_stack._stack),
+            id(IG.returned_blocks), len(IG.returned_blocks), id(IG._break_result), len(IG._break_result),
+            id(IG._continue_result), len(IG._continue_result), len(pa._inline_declared_entities),
+        )
+    except BaseException as e:  # noqa - unknown layout (refactored tree): treat every rejection as dirty
+        return ("unknown", os.urandom(4))
+
+
 def _fork_fresh(func, items, procs, batch):
-    """Forked children process small batches sequentially; a child stops its batch right after the first
-    task that raised or returned {"ok": False} (a rejected design may leave compiler state behind) and the
-    rest of that batch is re-dispatched to a new fork.  (fork costs 20-150 ms in this sandbox, so one
+    """Forked children process small batches sequentially; after a task that raised or returned {"ok": False}
+    the child compares the compiler's module-level scratch state (compiler_state) with its value at the
+    start of the batch and stops the batch if a rejected design left anything behind; the rest of that batch
+    is re-dispatched to a new fork.  (fork costs 20-150 ms in this sandbox, so one
     fork per task is too slow; multiprocessing's maxtasksperchild=1 is slower still.)"""
     import pickle
     import selectors
@@ -221,10 +248,11 @@ def _fork_fresh(func, items, procs, batch):
                         except OSError:
                             pass
                     out = []
+                    base = compiler_state()
                     for i in idxs:
                         res = _run_task((func, items[i]))
                         out.append(res)
-                        if _dirty(res):
+                        if _dirty(res) and compiler_state() != base:
                             break
                     try:
                         data = pickle.dumps(out)
@@ -270,6 +298,48 @@ def _fork_fresh(func, items, procs, batch):
     return results
 
 
+_WARM_SRC = '''
+import cohdl
+from cohdl import Bit, BitVector, Port, Unsigned, Signed, Signal, Variable, Null, true
+from cohdl import std
+
+class Warm(cohdl.Entity):
+    clk = Port.input(Bit); rst = Port.input(Bit); a = Port.input(Unsigned[4]); c = Port.input(Bit)
+    o = Port.output(Unsigned[4], default=Null); p = Port.output(Bit, default=Null)
+    def architecture(self):
+        @std.sequential(std.Clock(self.clk), std.Reset(self.rst))
+        async def proc():
+            await self.c
+            self.o <<= self.a + 1
+        @std.sequential(std.Clock(self.clk))
+        def proc2():
+            if self.c:
+                self.p <<= self.a[0]
+        @std.concurrent
+        def logic():
+            pass
+'''
+_WARMED = [False]
+
+
+def warm_parent():
+    """The first compilation in an interpreter costs ~0.5 s (cohdl parses and caches the sources of its own
+    traced library functions).  Compile one fixed, accepted design in the parent so that every forked child
+    starts from the same warmed-up state instead of paying that in each fork.  Disabled with
+    COHDL_VERIF_NOWARM=1 (C11 uses its own cold forks)."""
+    if _WARMED[0] or os.environ.get("COHDL_VERIF_NOWARM"):
+        return
+    _WARMED[0] = True
+    try:
+        from cohdl import std
+
+        mod = load_design_module(_WARM_SRC, "warm")
+        std.VhdlCompiler.to_string(mod.Warm)
+        std.VhdlCompiler.to_ir(load_design_module(_WARM_SRC, "warm2").Warm)
+    except BaseException:  # noqa - a broken tree shows up in the checks themselves
+        pass
+
+
 def fork_map(func, items, procs=None, chunk=1, fresh=True, batch=8):
     """run func(item) for every item in forked children of a process that has imported cohdl but never
     compiled anything.  fresh=True: no task ever runs after a task that raised or returned {"ok": False}
@@ -279,6 +349,8 @@ def fork_map(func, items, procs=None, chunk=1, fresh=True, batch=8):
     if not items:
         return []
     import_cohdl()
+    scratch_dir()  # created in the parent so that forked children share (and the parent removes) it
+    warm_parent()
     procs = procs or int(os.environ.get("COHDL_VERIF_PROCS", "0") or 0) or min(16, os.cpu_count() or 4)
     if fresh:
         return _fork_fresh(func, items, procs, max(1, batch))
